@@ -27,7 +27,7 @@ pub fn chain_history(seed: u64, i: u64, len: usize) -> (ChainCase, Vec<String>) 
     p.registry_pct = 15;
     p.admin_pct = 8;
     let api = *rng.pick(&[ApiKind::Std, ApiKind::Std, ApiKind::Bech32, ApiKind::Bech32m]);
-    let opts = HistoryOpts { profile: p, len, sweep: false, matrix: false, api };
+    let opts = HistoryOpts { profile: p, len, sweep: false, matrix: false, api, prestored: rng.chance(1, 4) };
     let mut scratch = Report::new();
     let (case, _discs, t) = run_history_t(&mut rng, &opts, &mut scratch, "C19", true);
     (case, t.unwrap_or_default())
@@ -36,7 +36,7 @@ pub fn chain_history(seed: u64, i: u64, len: usize) -> (ChainCase, Vec<String>) 
 /// Replays a chain program on a fresh instance.
 pub fn chain_replay(case: &ChainCase) -> Vec<String> {
     let mut scratch = Report::new();
-    let mut w = World::with_api(case.api);
+    let mut w = World::for_case(case);
     w.transcript = Some(vec![]);
     for op in &case.ops {
         let _ = w.step(op, &mut scratch);
@@ -48,8 +48,8 @@ pub fn chain_replay(case: &ChainCase) -> Vec<String> {
 /// instance does unrelated work in between. Returns the two transcripts and the number of noise steps.
 pub fn chain_interleaved(case: &ChainCase, noise_seed: u64) -> (Vec<String>, Vec<String>, u64) {
     let mut scratch = Report::new();
-    let mut a = World::with_api(case.api);
-    let mut b = World::with_api(case.api);
+    let mut a = World::for_case(case);
+    let mut b = World::for_case(case);
     let mut c = World::new();
     a.transcript = Some(vec![]);
     b.transcript = Some(vec![]);
